@@ -145,6 +145,8 @@ class Recorder:
         for v in self.violations:
             if v["signature"] == signature:
                 v["count"] += 1
+                if replayed and not v["replayed"]:      # a later instance of the same violation class did replay
+                    v.update({"what": what, "replay": jsonable(replay), "replayed": True})
                 return
         self.violations.append({"signature": signature, "what": what, "replay": jsonable(replay),
                                 "replayed": bool(replayed), "count": 1})
